@@ -3,7 +3,7 @@
    to length / area. *)
 From Coq Require Import ZArith Reals List Bool Lia Lra Psatz.
 Import ListNotations.
-Require Import MV.Lib.Base MV.C19.Ops MV.C19.OpsR MV.C19.Gen MV.C19.Model.
+Require Import MV.Lib.Base MV.C19.Ops MV.C19.OpsR MV.C19.Gen MV.C19.Model MV.C19.Proofs_Geometry.
 Open Scope R_scope.
 
 Definition rv3 := (R * R * R)%type.
@@ -373,10 +373,10 @@ Proof.
     destruct (nth_error E k) as [e|] eqn:Ee; [|apply nth_error_None in Ee; lia].
     destruct (Hn k _ (map_nth_error _ _ _ Ee)) as [a [Ha Hr]]. rewrite Hk in Ha. inversion Ha; subst a.
     destruct (nth_res V (fst e)) as [A|]; [|discriminate]. destruct (nth_res V (snd e)) as [B|]; [|discriminate].
-    cbn [res_bind] in Hr. inversion Hr. apply dist3_nonneg.
+    cbn [res_bind] in Hr. rewrite c_edge_len_eq in Hr. inversion Hr. apply dist3_nonneg.
   - intros k a b Ee. destruct (Hn k _ (map_nth_error _ _ _ Ee)) as [w [Hw Hr]]. cbn [fst snd] in Hr.
     destruct (nth_res V a) as [A|]; [|discriminate]. destruct (nth_res V b) as [B|]; [|discriminate].
-    cbn [res_bind] in Hr. inversion Hr; subst. exists A, B. auto.
+    cbn [res_bind] in Hr. rewrite c_edge_len_eq in Hr. inversion Hr; subst. exists A, B. auto.
 Qed.
 
 Lemma face_areas_spec V F areas : face_areas Rops V F = Ok areas ->
@@ -391,10 +391,10 @@ Proof.
     destruct (nth_error F k) as [f|] eqn:Ee; [|apply nth_error_None in Ee; lia].
     destruct (Hn k _ (map_nth_error _ _ _ Ee)) as [a [Ha Hr]]. rewrite Hk in Ha. inversion Ha; subst a.
     destruct (tri_pts V f) as [[[A B] C]|]; [|discriminate].
-    cbn [res_bind] in Hr. inversion Hr. apply tri_area_nonneg.
+    cbn [res_bind] in Hr. rewrite c_tri_area_eq in Hr. inversion Hr. apply tri_area_nonneg.
   - intros k f Ee. destruct (Hn k _ (map_nth_error _ _ _ Ee)) as [w [Hw Hr]].
     destruct (tri_pts V f) as [[[A B] C]|]; [|discriminate].
-    cbn [res_bind] in Hr. inversion Hr; subst. exists A, B, C. auto.
+    cbn [res_bind] in Hr. rewrite c_tri_area_eq in Hr. inversion Hr; subst. exists A, B, C. auto.
 Qed.
 
 (* ------------------------------------------------------------------ polyline *)
@@ -522,7 +522,7 @@ Proof.
   assert (Hlt : (Z.to_nat f < length F)%nat) by (rewrite <- HlN; apply nth_error_Some; congruence).
   destruct (nth_error F (Z.to_nat f)) as [fc|] eqn:Efc; [|apply nth_error_None in Efc; lia].
   destruct (HnN _ _ (map_nth_error _ _ _ Efc)) as [a [Ha2 Hr2]]. rewrite HN in Ha2. inversion Ha2; subst a.
-  destruct (tri_pts V fc) as [[[A B] C]|] eqn:Et; [|discriminate]. cbn [res_bind] in Hr2. inversion Hr2.
+  destruct (tri_pts V fc) as [[[A B] C]|] eqn:Et; [|discriminate]. cbn [res_bind] in Hr2. rewrite c_tri_normal_eq in Hr2. inversion Hr2.
   exists fc, A, B, C. repeat split; auto.
   unfold nth_res. destruct (f <? 0)%Z eqn:E; [lia|]. now rewrite Efc.
 Qed.
